@@ -239,4 +239,294 @@ theorem skip_sound_aux (d : Int) (N : Nat) (maxt : Int) (input : List Sample) (h
           exact blockLoop_noskip_next ..
 
 
+/-! ### soundness invariant: everything stored is an input sample of the window -/
+
+/-- Head invariant w.r.t. a predicate `P` on samples and `R` on timestamps. -/
+structure HInv (P : Smp → Prop) (R : Int → Prop) (h : Head) : Prop where
+  stored : ∀ x ∈ h.stored, P x
+  range : ∀ lo hi, h.range = some (lo, hi) → R lo ∧ R hi
+  cover : ∀ x ∈ h.stored, ∃ lo hi, h.range = some (lo, hi) ∧ lo ≤ x.2.1 ∧ x.2.1 ≤ hi
+
+theorem updateMinMax_range (h : Head) (t : Int) :
+    ∃ lo hi, (h.updateMinMax t).range = some (lo, hi) ∧ lo ≤ t ∧ t ≤ hi ∧
+      (∀ lo' hi', h.range = some (lo', hi') → lo ≤ lo' ∧ hi' ≤ hi ∧ (lo = lo' ∨ lo = t) ∧ (hi = hi' ∨ hi = t)) ∧
+      (h.range = none → lo = t ∧ hi = t) := by
+  unfold Head.updateMinMax
+  cases hr : h.range with
+  | none =>
+    refine ⟨t, t, rfl, Int.le_refl _, Int.le_refl _, ?_, fun _ => ⟨rfl, rfl⟩⟩
+    intro _ _ h; cases h
+  | some r =>
+    obtain ⟨lo, hi⟩ := r
+    refine ⟨_, _, rfl, ?_, ?_, ?_, by intro h; cases h⟩
+    · split <;> omega
+    · split <;> omega
+    · intro lo' hi' h; cases h
+      refine ⟨by split <;> omega, by split <;> omega, ?_, ?_⟩
+      · by_cases h : t < lo <;> simp [h]
+      · by_cases h : t > hi <;> simp [h]
+
+theorem updateMinMax_stored (h : Head) (t : Int) : (h.updateMinMax t).stored = h.stored := by
+  unfold Head.updateMinMax; cases h.range with
+  | none => rfl
+  | some r => rfl
+
+theorem store_inv {P R} (h : Head) (x : Smp) (ser : List (Nat × SerSt)) (hi : HInv P R h) (hx : P x) (hr : R x.2.1) :
+    HInv P R { (h.updateMinMax x.2.1) with ser := ser, stored := h.stored ++ [x] } := by
+  obtain ⟨lo, hi', hrange, h1, h2, h3, h4⟩ := updateMinMax_range h x.2.1
+  refine ⟨?_, ?_, ?_⟩
+  · intro y hy
+    simp only [List.mem_append, List.mem_singleton] at hy
+    rcases hy with hy | rfl
+    · exact hi.stored y hy
+    · exact hx
+  · intro a b hab
+    simp only at hab
+    rw [hrange] at hab; cases hab
+    cases hr0 : h.range with
+    | none => obtain ⟨e1, e2⟩ := h4 hr0; subst e1; subst e2; exact ⟨hr, hr⟩
+    | some r =>
+      obtain ⟨lo', hi''⟩ := r
+      obtain ⟨_, _, e1, e2⟩ := h3 lo' hi'' hr0
+      obtain ⟨r1, r2⟩ := hi.range lo' hi'' hr0
+      constructor
+      · rcases e1 with e | e <;> rw [e] <;> assumption
+      · rcases e2 with e | e <;> rw [e] <;> assumption
+  · intro y hy
+    simp only [List.mem_append, List.mem_singleton] at hy
+    refine ⟨lo, hi', hrange, ?_⟩
+    rcases hy with hy | rfl
+    · obtain ⟨lo', hi'', e, a, b⟩ := hi.cover y hy
+      obtain ⟨c, d, _, _⟩ := h3 lo' hi'' e
+      omega
+    · omega
+
+theorem commitOne_inv {P R} (mv : Int) (h : Head) (x : Smp) (hi : HInv P R h) (hx : P x) (hr : R x.2.1) :
+    HInv P R (commitOne mv h x) := by
+  unfold commitOne
+  split
+  · exact hi
+  · split
+    · split
+      · exact hi
+      · exact store_inv h x _ hi hx hr
+    · exact store_inv h x _ hi hx hr
+
+theorem commit_inv {P R} (mv : Int) (pending : List Smp) : ∀ (h : Head), HInv P R h →
+    (∀ x ∈ pending, P x ∧ R x.2.1) → HInv P R (commit mv h pending) := by
+  induction pending with
+  | nil => intro h hi _; exact hi
+  | cons x xs ih =>
+    intro h hi hp
+    unfold commit; simp only [List.foldl_cons]
+    exact ih _ (commitOne_inv mv h x hi (hp x List.mem_cons_self).1 (hp x List.mem_cons_self).2)
+      (fun y hy => hp y (List.mem_cons_of_mem _ hy))
+
+structure PInv (P : Smp → Prop) (R : Int → Prop) (p : Pass) : Prop where
+  head : HInv P R p.head
+  pending : ∀ x ∈ p.pending, P x ∧ R x.2.1
+
+theorem initTime_inv {P R} (h : Head) (t : Int) (hi : HInv P R h) (hr : R t) : HInv P R (h.initTime t) := by
+  unfold Head.initTime
+  cases hr0 : h.range with
+  | some r => simp only; exact hi
+  | none =>
+    simp only
+    refine ⟨hi.stored, ?_, ?_⟩
+    · intro a b hab; cases hab; exact ⟨hr, hr⟩
+    · intro y hy
+      obtain ⟨lo, hi', e, _⟩ := hi.cover y hy
+      rw [hr0] at e; cases e
+
+theorem appendStep_inv {P R} (d : Int) (N : Nat) (p p' : Pass) (x : Smp) (hp : PInv P R p) (hx : P x) (hr : R x.2.1)
+    (h : appendStep d N p x = .ok p') : PInv P R p' := by
+  have hpend : ∀ y ∈ p.pending ++ [x], P y ∧ R y.2.1 := by
+    intro y hy
+    simp only [List.mem_append, List.mem_singleton] at hy
+    rcases hy with hy | rfl
+    · exact hp.pending y hy
+    · exact ⟨hx, hr⟩
+  -- the head and minValid the appender works with
+  have key : ∀ (head : Head) (mv : Int), HInv P R head →
+      (if x.2.1 < mv then Except.error Err.oob
+       else match appendable (lookup x.1 head.ser) x.2.1 x.2.2 mv with
+        | .error e => .error e
+        | .ok () =>
+          if p.count + 1 < N then .ok { head := head, minValid := some mv, pending := p.pending ++ [x], count := p.count + 1 }
+          else .ok { head := commit mv head (p.pending ++ [x]), minValid := some ((commit mv head (p.pending ++ [x])).maxTime - (2 * d).tdiv 2), pending := [], count := 0 })
+        = Except.ok p' → PInv P R p' := by
+    intro head mv hh h
+    by_cases h1 : x.2.1 < mv
+    · rw [if_pos h1] at h; cases h
+    · rw [if_neg h1] at h
+      cases ha : appendable (lookup x.1 head.ser) x.2.1 x.2.2 mv with
+      | error e => rw [ha] at h; cases h
+      | ok u =>
+        rw [ha] at h
+        simp only at h
+        by_cases h2 : p.count + 1 < N
+        · rw [if_pos h2] at h; cases h; exact ⟨hh, hpend⟩
+        · rw [if_neg h2] at h; cases h
+          exact ⟨commit_inv _ _ _ hh hpend, by intro y hy; cases hy⟩
+  unfold appendStep at h
+  cases hmv : p.minValid with
+  | some m => rw [hmv] at h; exact key _ _ hp.head h
+  | none => rw [hmv] at h; exact key _ _ (initTime_inv _ _ hp.head hr) h
+
+/-- `x` is an input sample lying in the window `[t, u)`. -/
+def InWin (input : List Sample) (t u : Int) (x : Smp) : Prop :=
+  (⟨x.1, some x.2.1, x.2.2⟩ : Sample) ∈ input ∧ t ≤ x.2.1 ∧ x.2.1 < u
+
+theorem passLoop_inv (input : List Sample) (d : Int) (N : Nat) (t u : Int) (xs : List Sample) :
+    ∀ (p : Pass) (n : Int) (p' : Pass) (n' : Int), (∀ y ∈ xs, y ∈ input) →
+    PInv (InWin input t u) (fun ts => t ≤ ts ∧ ts < u) p →
+    passLoop d N t u xs p n = .ok (p', n') → PInv (InWin input t u) (fun ts => t ≤ ts ∧ ts < u) p' := by
+  induction xs with
+  | nil => intro p n p' n' _ hp h; simp [passLoop] at h; rw [← h.1]; exact hp
+  | cons y ys ih =>
+    intro p n p' n' hin hp h
+    have hin' : ∀ z ∈ ys, z ∈ input := fun z hz => hin z (List.mem_cons_of_mem _ hz)
+    unfold passLoop at h
+    cases hy : y.t with
+    | none => rw [hy] at h; cases h
+    | some ts =>
+      rw [hy] at h
+      simp only at h
+      by_cases h1 : ts < t
+      · rw [if_pos h1] at h; exact ih _ _ _ _ hin' hp h
+      · rw [if_neg h1] at h
+        by_cases h2 : ts ≥ u
+        · rw [if_pos h2] at h; exact ih _ _ _ _ hin' hp h
+        · rw [if_neg h2] at h
+          cases ha : appendStep d N p (y.s, ts, y.v) with
+          | error e => rw [ha] at h; cases h
+          | ok p1 =>
+            rw [ha] at h
+            simp only at h
+            have hy' : (⟨y.s, some ts, y.v⟩ : Sample) ∈ input := by
+              have := hin y List.mem_cons_self
+              rw [← hy]; exact this
+            have hP : InWin input t u (y.s, ts, y.v) := ⟨hy', Int.not_lt.mp h1, Int.not_le.mp h2⟩
+            exact ih _ _ _ _ hin' (appendStep_inv d N p p1 _ hp hP ⟨Int.not_lt.mp h1, Int.not_le.mp h2⟩ ha) h
+
+theorem empty_pass_inv {P R} : PInv P R ({} : Pass) :=
+  ⟨⟨(by intro x hx; cases hx), (by intro a b h; cases h), (by intro x hx; cases hx)⟩, (by intro x hx; cases hx)⟩
+
+theorem flushHead_inv {P R} (head : Head) (hh : HInv P R head) (b : Block)
+    (h : (match head.range with
+      | none => none
+      | some (lo, hi) => if head.stored.isEmpty then none else some (⟨lo, hi + 1, head.stored⟩ : Block)) = some b) :
+    (∀ x ∈ b.samples, P x ∧ b.mint ≤ x.2.1 ∧ x.2.1 < b.maxt) ∧ R b.mint ∧ R (b.maxt - 1) ∧ b.samples ≠ [] := by
+  cases hr : head.range with
+  | none => rw [hr] at h; cases h
+  | some r =>
+    obtain ⟨lo, hi⟩ := r
+    rw [hr] at h
+    simp only at h
+    by_cases he : head.stored.isEmpty
+    · rw [if_pos he] at h; cases h
+    · rw [if_neg he] at h
+      cases h
+      obtain ⟨r1, r2⟩ := hh.range lo hi hr
+      refine ⟨?_, r1, by simpa using r2, ?_⟩
+      · intro x hx
+        obtain ⟨lo', hi', e, a, b⟩ := hh.cover x hx
+        rw [hr] at e; cases e
+        exact ⟨hh.stored x hx, a, by show x.2.1 < hi + 1; omega⟩
+      · intro hnil; simp at hnil; simp [hnil] at he
+
+theorem flush_inv {P R} (p : Pass) (hp : PInv P R p) (b : Block) (h : flush p = some b) :
+    (∀ x ∈ b.samples, P x ∧ b.mint ≤ x.2.1 ∧ x.2.1 < b.maxt) ∧ R b.mint ∧ R (b.maxt - 1) ∧ b.samples ≠ [] := by
+  unfold flush at h
+  cases hm : p.minValid with
+  | some m => rw [hm] at h; exact flushHead_inv _ (commit_inv _ _ _ hp.head hp.pending) b h
+  | none => rw [hm] at h; exact flushHead_inv _ hp.head b h
+
+/-- A block is good for start `s0` and duration `d`: it lies in one window `[s0 + j·d, s0 + (j+1)·d)`
+    and holds only input samples, all inside `[mint, maxt)`. -/
+def GoodBlock (input : List Sample) (s0 d : Int) (b : Block) : Prop :=
+  ∃ j : Nat, s0 + j * d ≤ b.mint ∧ b.mint < b.maxt ∧ b.maxt ≤ s0 + j * d + d ∧ b.samples ≠ [] ∧
+    ∀ x ∈ b.samples, (⟨x.1, some x.2.1, x.2.2⟩ : Sample) ∈ input ∧ b.mint ≤ x.2.1 ∧ x.2.1 < b.maxt
+
+theorem windowPass_good (input : List Sample) (d : Int) (N : Nat) (t : Int) (b : Block) (n : Int)
+    (h : windowPass d N t input = .ok (some b, n)) :
+    t ≤ b.mint ∧ b.mint < b.maxt ∧ b.maxt ≤ t + d ∧ b.samples ≠ [] ∧
+      ∀ x ∈ b.samples, (⟨x.1, some x.2.1, x.2.2⟩ : Sample) ∈ input ∧ b.mint ≤ x.2.1 ∧ x.2.1 < b.maxt := by
+  unfold windowPass at h
+  cases hp : passLoop d N t (t + d) input {} maxI64 with
+  | error e => rw [hp] at h; cases h
+  | ok r =>
+    obtain ⟨p', m⟩ := r
+    rw [hp] at h
+    simp only [Except.ok.injEq, Prod.mk.injEq] at h
+    have hinv := passLoop_inv input d N t (t + d) input {} maxI64 p' m (fun y hy => hy) empty_pass_inv hp
+    obtain ⟨h1, h2, h3, h4⟩ := flush_inv p' hinv b h.1
+    obtain ⟨x0, hx0⟩ := List.exists_mem_of_ne_nil _ h4
+    have := (h1 x0 hx0).2
+    refine ⟨h2.1, by omega, by omega, h4, fun x hx => ⟨(h1 x hx).1.1, (h1 x hx).2⟩⟩
+
+theorem blockLoop_good (input : List Sample) (skip : Bool) (d : Int) (N : Nat) (maxt s0 : Int) (fuel : Nat) :
+    ∀ (j : Nat) (next : Int) (acc : List Block), (∀ b ∈ acc, GoodBlock input s0 d b) →
+    ∀ b ∈ (blockLoop skip d N maxt input fuel (s0 + j * d) next acc).2, GoodBlock input s0 d b := by
+  induction fuel with
+  | zero => intro j next acc hacc; simpa [blockLoop] using hacc
+  | succ f ih =>
+    intro j next acc hacc
+    have hnext : s0 + (j : Int) * d + d = s0 + ((j + 1 : Nat) : Int) * d := by
+      rw [Int.natCast_add, Int.add_mul]; simp; omega
+    unfold blockLoop
+    by_cases h1 : s0 + (j : Int) * d > maxt
+    · rw [if_pos h1]; exact hacc
+    · rw [if_neg h1]
+      split
+      · rw [hnext]; exact ih (j + 1) next acc hacc
+      · cases hw : windowPass d N (s0 + j * d) input with
+        | error e => exact hacc
+        | ok r =>
+          obtain ⟨ob, n'⟩ := r
+          simp only
+          rw [hnext]
+          apply ih (j + 1) n'
+          intro b hb
+          simp only [List.mem_append] at hb
+          rcases hb with hb | hb
+          · exact hacc b hb
+          · cases ob with
+            | none => cases hb
+            | some b0 =>
+              simp only [Option.toList, List.mem_singleton] at hb
+              subst hb
+              obtain ⟨a1, a2, a3, a4, a5⟩ := windowPass_good input d N _ b n' hw
+              exact ⟨j, a1, a2, a3, a4, a5⟩
+
+theorem alignStart_mul (fixed : Bool) (d mint : Int) : ∃ k, alignStart fixed d mint = d * k := by
+  unfold alignStart; split <;> exact ⟨_, rfl⟩
+
+theorem backfill_sound_aux (fixed : Bool) (maxBD : Int) (N : Nat) (input : List Sample) :
+    ∀ b ∈ (backfillG fixed maxBD N input).2, ∃ d k : Int, getCompatibleBlockDuration maxBD = .ok d ∧
+      d * k ≤ b.mint ∧ b.mint < b.maxt ∧ b.maxt ≤ d * k + d ∧ b.samples ≠ [] ∧
+      ∀ x ∈ b.samples, (⟨x.1, some x.2.1, x.2.2⟩ : Sample) ∈ input ∧ b.mint ≤ x.2.1 ∧ x.2.1 < b.maxt := by
+  intro b hb
+  unfold backfillG at hb
+  cases hmm : getMinAndMaxTimestamps input with
+  | error e => rw [hmm] at hb; cases hb
+  | ok r =>
+    obtain ⟨maxt, mint⟩ := r
+    rw [hmm] at hb
+    simp only [createBlocks] at hb
+    cases hd : getCompatibleBlockDuration maxBD with
+    | error e => rw [hd] at hb; cases hb
+    | ok d =>
+      rw [hd] at hb
+      simp only at hb
+      obtain ⟨k0, hk0⟩ := alignStart_mul fixed d mint
+      have e : alignStart fixed d mint + ((0 : Nat) : Int) * d = alignStart fixed d mint := by simp
+      have key := blockLoop_good input true d N maxt (alignStart fixed d mint)
+        (iterations (alignStart fixed d mint) maxt d) 0 maxI64 [] (by intro b hb; cases hb) b
+      rw [e] at key
+      obtain ⟨j, a1, a2, a3, a4, a5⟩ := key hb
+      refine ⟨d, k0 + j, rfl, ?_, a2, ?_, a4, a5⟩
+      · rw [Int.mul_add, ← hk0, Int.mul_comm d j]; exact a1
+      · rw [Int.mul_add, ← hk0, Int.mul_comm d j]; exact a3
+
 end Prom.Backfill
